@@ -243,6 +243,13 @@ def find_item(src, mask, kind, name, lo=0, hi=None, depth=0):
         end = match_delim(src, mask, bo) + 1
         body_open = bo
         # tuple structs / `struct X {..}` need no trailing ';' ; macro_rules! {} too
+        if kind in ("const", "static"):
+            # `const X: T = T { .. };` - the initialiser's braces are not the item's end
+            j = end
+            while j < hi and (src[j] in " \t\n" or not mask[j]):
+                j += 1
+            if j < hi and src[j] == ";":
+                end = j + 1
     start = _expand_back(src, mask, k, lo)
     return Item(src, mask, start, k, body_open, end, kind, name)
 
